@@ -149,6 +149,34 @@ def run(ctx):
         ctx.broken.append("astfact:saver_lock_discipline (scenario.Saver methods touching the shared decompressionModel without "
                           "Lock(); defer Unlock(): %s; shape recognised: %s)" % (unlocked, shape))
 
+    # ---- package-level variables touched by run code: translated from the current source, matched against the census
+    import os, check as ck
+    tdir = os.path.join(ck.VERIF, "harness", "astfacts08")
+    texe = os.path.join(ck.BUILD, "astfacts08." + ctx.pid)
+    pb = ck.sh(["go", "build", "-o", texe, "."], cwd=tdir, env=ck.GOENV, timeout=600)
+    if pb.returncode != 0:
+        raise ck.Abort("astfacts08 does not build:\n" + pb.stdout[-2000:] + pb.stderr[-4000:])
+    pv_out = os.path.join(ck.GEN, "PkgVars.v")
+    pr_ = ck.sh([texe, ck.REPO, pv_out], env=ck.GOENV, timeout=300)
+    if pr_.returncode != 0:
+        raise ck.Abort("astfacts08: cannot read the source (hard error, not a verdict):\n" + pr_.stderr[-4000:])
+    pv_facts = json.loads(pr_.stdout.strip().splitlines()[-1])
+    okp, sop, sep = ctx.coq_cases("PkgVars", open(pv_out).read())
+    bodyp = g.HEADER + "From Crem Require Import PkgVarsCensus.\nFrom CremGen Require Import PkgVars.\nOpen Scope string_scope.\n"
+    bodyp += "Definition U := Eval vm_compute in uncovered accounted pkg_var_uses.\nPrint U.\n"
+    bodyp += "Definition W := Eval vm_compute in run_time_writes accounted.\nPrint W.\n"
+    bodyp += "Lemma every_use_is_in_the_census : uncovered accounted pkg_var_uses = [] /\\ run_time_writes accounted = []. Proof. split; reflexivity. Qed.\n"
+    okq, soq, seq_ = ctx.coq_cases("obl_C08_pkgvars", bodyp) if okp else (False, "", "gen/PkgVars.v did not compile: " + (sep or sop)[-400:])
+    import re as _re
+    unc = _re.findall(r'\("([^"]+)",\s*"([^"]+)"\)', soq.split("W =")[0]) if "U =" in soq else []
+    ctx.oblige("astfact:package_level_variables_in_census", okq, "" if okq else
+               "package-level variable uses by run code that the census does not account for: %s; %s" % (unc[:12], " ".join((seq_ or "").split())[-300:]))
+    if not okq:
+        ctx.broken.append("astfact:package_level_variables_in_census (gen/obl_C08_pkgvars.v: run code touches a package-level variable in a way "
+                          "the census PkgVarsCensus.accounted does not list: %s)" % (unc[:12],))
+    ctx.stats["package_level_variables"] = {"files_scanned": pv_facts["files_scanned"], "variables": pv_facts["package_level_variables"],
+                                            "touched_by_run_code": sum(1 for f in pv_facts["facts"] if f["uses"]), "not_in_census": unc}
+
     # ---- access recording of a real save -> instruction sequences of SharedSection.v, discipline checked by computation
     probes = [l for l in lines if l.get("kind") == "saverprobe"]
 
